@@ -162,6 +162,12 @@ class Interp:
             for x in list(it):
                 self.assign(st.target, x, env, f)
                 self.exec_block(st.body, env, f)
+        elif isinstance(st, ast.With):
+            for item in st.items:
+                val = self.eval(item.context_expr, env, f)
+                if item.optional_vars is not None:
+                    self.assign(item.optional_vars, val, env, f)
+            self.exec_block(st.body, env, f)
         elif isinstance(st, ast.Try):
             # only try/except used as control flow with raise of modelled exceptions
             try:
@@ -480,7 +486,12 @@ class Interp:
         if isinstance(fn, ast.Name) and fn.id == "isinstance" and fn.id not in env and len(e.args) == 2:
             args = [self.eval(e.args[0], env, f), None]
         else:
-            args = [self.eval(a, env, f) for a in e.args]
+            args = []
+            for a in e.args:
+                if isinstance(a, ast.Starred):
+                    args.extend(list(self.eval(a.value, env, f)))
+                else:
+                    args.append(self.eval(a, env, f))
         kwargs = {k.arg: self.eval(k.value, env, f) for k in e.keywords if k.arg is not None}
         if any(k.arg is None for k in e.keywords):
             raise Unmodelled(f"**kwargs call {src(e)[:50]}")
@@ -571,6 +582,19 @@ class Interp:
                 mm = self.P.lookup_method(ci, fn.attr) if ci else None
                 if mm is not None:
                     return self._call_func(mm, args, kwargs, bound=base)
+        if isinstance(fn, ast.Attribute):
+            try:
+                recv = self.eval(fn.value, env, f)
+            except Unmodelled:
+                recv = None
+            qcls = getattr(recv, "_e6_class", None) if not isinstance(recv, (ClassVal, ExternalObj, dict, list, tuple, set, str, int, float, bool, type(None))) else None
+            if qcls is not None and not hasattr(type(recv), fn.attr):
+                ci = self.P.classes.get(qcls)
+                mm = self.P.lookup_method(ci, fn.attr) if ci else None
+                if mm is not None:
+                    if "staticmethod" in mm.decorators:
+                        return self._call_func(mm, args, kwargs, bound=None)
+                    return self._call_method(mm, recv, args, kwargs)
         callee = self.eval(fn, env, f)
         if isinstance(callee, tuple) and callee and callee[0] == "boundmethod":
             return self._call_func(callee[1], args, kwargs, bound=callee[2])
@@ -586,6 +610,15 @@ class Interp:
         if callable(callee):
             return callee(*args, **kwargs)
         raise Unmodelled(f"{f.qualname}:{e.lineno} call {src(e)[:60]} not modelled")
+
+    def _call_method(self, g: FuncInfo, recv: Any, args: List[Any], kwargs: Dict[str, Any]) -> Any:
+        a = g.node.args  # type: ignore[attr-defined]
+        names = [x.arg for x in a.posonlyargs + a.args]
+        amap: Dict[str, Any] = {names[0]: recv}
+        for n_, v_ in zip(names[1:], args):
+            amap[n_] = v_
+        amap.update(kwargs)
+        return self.call(g, amap)
 
     def _call_func(self, g: FuncInfo, args: List[Any], kwargs: Dict[str, Any], bound: Optional[ClassVal]) -> Any:
         a = g.node.args  # type: ignore[attr-defined]
